@@ -424,18 +424,21 @@ fn run_case(b: &Built, sid: u64, idx: usize, c: &Value) -> Value {
     let (order, hintpos, form) = (c[8].as_str().unwrap(), c[9].as_str().unwrap(), c[10].as_str().unwrap());
     let sc = &b.scripts;
 
-    // the allowlist at signing time, configured through the public API: entries are added or removed
-    // when the previous configuration allows it, otherwise the list is replaced
+    // the allowlist at signing time, configured through the public API: two cases out of three the entries
+    // that differ from the previous configuration are removed / added, otherwise the list is replaced
     {
         let mut cur = b.allow_now.lock().unwrap();
         let missing: Vec<String> = allow.iter().filter(|x| !cur.contains(*x)).cloned().collect();
         let extra: Vec<String> = cur.iter().filter(|x| !allow.contains(*x)).cloned().collect();
-        if !missing.is_empty() && extra.is_empty() {
-            b.fx.node.add_allowlist(&sc.allow_entries(&missing)).expect("add_allowlist");
-        } else if missing.is_empty() && !extra.is_empty() {
-            b.fx.node.remove_allowlist(&sc.allow_entries(&extra)).expect("remove_allowlist");
-        } else if !missing.is_empty() || !extra.is_empty() || idx % 2 == 0 {
+        if idx % 3 == 0 {
             b.fx.node.set_allowlist(&sc.allow_entries(&allow)).expect("set_allowlist");
+        } else {
+            if !extra.is_empty() {
+                b.fx.node.remove_allowlist(&sc.allow_entries(&extra)).expect("remove_allowlist");
+            }
+            if !missing.is_empty() {
+                b.fx.node.add_allowlist(&sc.allow_entries(&missing)).expect("add_allowlist");
+            }
         }
         *cur = allow.clone();
     }
